@@ -170,7 +170,8 @@ theorem sim_binM {W : World} {M : Msl.MWorld} {env : Ast.Env} {cx : Ctx} {vis : 
     (hx : SimM W M env x x' tx) (htx : Ir.typeOf W.sig cx.vty x = some tx)
     (hy : SimM W M env y y' ty) (hty : Ir.typeOf W.sig cx.vty y = some ty)
     (ht : Ir.typeOf W.sig cx.vty (.op o (.cons x (.cons y .nil))) = some t)
-    (hok : Ir.okM S (.op o (.cons x (.cons y .nil))) = true) :
+    (hok : Ir.okM S (.op o (.cons x (.cons y .nil))) = true)
+    (hrem : (irOpSem o = .bin .mod ∨ irOpSem o = .compound .mod) → tx ≠ .float) :
     SimM W M env (.op o (.cons x (.cons y .nil))) (.bin b x' y') t := by
   simp only [Ir.okM, Bool.and_eq_true, Bool.not_eq_true', Bool.or_eq_true, decide_eq_true_eq, hSs, hSv, htx] at hok
   obtain ⟨⟨⟨⟨hokx, hoky⟩, hminx⟩, hminy⟩, hcond⟩ := hok
@@ -179,6 +180,7 @@ theorem sim_binM {W : World} {M : Msl.MWorld} {env : Ast.Env} {cx : Ctx} {vis : 
   obtain ⟨tyx, evx⟩ := hx.plain hminx
   cases hsem : irOpSem o with
   | bin m =>
+    have hnr : ¬(m = MBin.mod ∧ tx = Ty.float) := fun h => hrem (.inl (by rw [hsem, h.1])) h.2
     rw [hsem] at ht hs hcond hminy
     simp at ht hminy
     obtain ⟨rfl, ht⟩ := ht
@@ -207,7 +209,7 @@ theorem sim_binM {W : World} {M : Msl.MWorld} {env : Ast.Env} {cx : Ctx} {vis : 
       simp only [hsh', Bool.false_eq_true, if_false] at hcond
       obtain ⟨hpr, hcm, hnl, hnb⟩ := arith_facts hcond
       constructor
-      · simp only [Msl.typeOf, hs, tyx, tyy, isShift_eq, hsh', Bool.false_eq_true, if_false, hcm]
+      · simp only [Msl.typeOf, hs, tyx, tyy, isShift_eq, hsh', Bool.false_eq_true, if_false, hcm, hnr]
         cases hm : m.isCmp <;> simp [hm] at ht ⊢ <;> simp [ht, mTy, Ir.isMin]
       · intro σ
         simp only [Msl.eval, hs, tyx, tyy, isShift_eq, hsh', Bool.false_eq_true, if_false, hcm, Ir.eval, hsem, evx]
@@ -220,7 +222,7 @@ theorem sim_binM {W : World} {M : Msl.MWorld} {env : Ast.Env} {cx : Ctx} {vis : 
           | none => simp [h2]
           | some r2 =>
             obtain ⟨vb, σ2⟩ := r2
-            simp only [Msl.binopM, hnl, if_false, hp]
+            simp only [Msl.binopM, hnl, if_false, hp, hnr]
             cases h3 : binop W.P m va vb <;> simp [h2, h3, mVal, Ir.isMin]
   | land =>
     rw [hsem] at ht hs hminy
@@ -279,6 +281,7 @@ theorem sim_binM {W : World} {M : Msl.MWorld} {env : Ast.Env} {cx : Ctx} {vis : 
       simp only [Msl.eval, hs, hl', hy.1, Ir.eval, hsem, hxv, hvty, hvx, hy.conv hty]
       cases h1 : Ir.eval W y σ <;> simp [mVal, Ir.isMin]
   | compound m =>
+    have hnr : ¬(m = MBin.mod ∧ tx = Ty.float) := fun h => hrem (.inr (by rw [hsem, h.1])) h.2
     rw [hsem] at ht hs hcond hminy
     simp at ht hminy
     obtain ⟨⟨rfl, hlv, hncmp⟩, rfl⟩ := ht
@@ -289,8 +292,9 @@ theorem sim_binM {W : World} {M : Msl.MWorld} {env : Ast.Env} {cx : Ctx} {vis : 
     by_cases hsh : Ir.isShiftM m = true
     · simp only [hsh, if_true] at hcond
       obtain ⟨hpr, hint, hnl⟩ := int_facts hcond
+      have hnm : m ≠ MBin.mod := by cases m <;> simp [Ir.isShiftM] at hsh <;> simp
       constructor
-      · simp [Msl.typeOf, hs, tyx, tyy, mTy, Ir.isMin]
+      · simp [Msl.typeOf, hs, tyx, tyy, mTy, Ir.isMin, hnm]
       · intro σ
         simp only [Msl.eval, hs, hl', tyy, isShift_eq, hsh, if_true, hpr, Ir.eval, hsem, hxv, hvty, hvx, evy]
         cases h1 : Ir.eval W y σ with
@@ -303,14 +307,14 @@ theorem sim_binM {W : World} {M : Msl.MWorld} {env : Ast.Env} {cx : Ctx} {vis : 
       simp only [hsh', Bool.false_eq_true, if_false] at hcond
       obtain ⟨hpr, hcm, hnl, hnb⟩ := arith_facts hcond
       constructor
-      · simp [Msl.typeOf, hs, tyx, tyy, mTy, Ir.isMin]
+      · simp [Msl.typeOf, hs, tyx, tyy, mTy, Ir.isMin, hcm, hnr]
       · intro σ
         simp only [Msl.eval, hs, hl', tyy, isShift_eq, hsh', Bool.false_eq_true, if_false, hcm, Ir.eval, hsem, hxv, hvty, hvx, evy]
         cases h1 : Ir.eval W y σ with
         | none => simp [Msl.convR]
         | some r =>
           obtain ⟨vb, σ1⟩ := r
-          simp only [Msl.convR, Msl.convert, if_pos rfl, Msl.binopM, hnl, if_false, hp]
+          simp only [Msl.convR, Msl.convert, if_pos rfl, Msl.binopM, hnl, if_false, hp, hnr]
           cases h3 : binop W.P m (σ1 xv) vb <;> simp [h3, mVal, Ir.isMin]
   | _ => rw [hsem] at ht; simp at ht
 
